@@ -990,7 +990,7 @@ def generate(src: Path, refused: dict[str, str] | None = None) -> dict[str, str]
         gl = "".join(f"-- guard {k}: {g}\n" for k, gs in guards.items() if SIGS[k]["mod"] == mod for g in gs)
         files[mod] = hdr + "\n".join(parts) + "\n" + gl + "end Gen\n"
     for mod, fn in (("Utils", generate_utils), ("Config", generate_config), ("Solve", generate_solve),
-                    ("Safe", generate_safe)):
+                    ("Safe", generate_safe), ("MultLoops", generate_mult_loops)):
         r = attempt(mod, lambda fn=fn: fn(src))
         if r is not None:
             files[mod] = r
@@ -1908,6 +1908,198 @@ def generate_safe(src: Path) -> str:
             "import TeaTasting.Basic.Safe\nimport TeaTasting.Gen.Aggr\n\nvariable {V : Type}\n\nnamespace Gen\n\n"
             + "\n".join(parts) + "\nend Gen\n")
 
+
+
+# ------------------------------------------------------------------------------------------
+# multiplicity._hochberg_stepup / _holm_stepdown  ->  Gen/MultLoops.lean
+#
+# A loop `for i, r in enumerate(sorted(rs, key=lambda d: ±d["pvalue"]) [, start=s])` with carried variables that are
+# initialised to integer constants before it becomes one `step` function (state -> index -> p-value -> output x state)
+# plus the constants `init`, `start`, `descending`; the recursion over the sorted list is the same for both loops and
+# is written once in the header.
+# ------------------------------------------------------------------------------------------
+class _LoopTr:
+    def __init__(self, fn: ast.FunctionDef):
+        self.fn = fn
+        self.ints: set[str] = set()       # names holding Python ints that must be cast into the field
+        self.elem = None                  # loop variable holding the metric result
+        self.adjust = None
+
+    def ex(self, e: ast.expr) -> str:  # noqa: C901, PLR0911
+        if isinstance(e, ast.Name):
+            return f"({e.id} : {A})" if e.id in self.ints else e.id
+        if isinstance(e, ast.Constant) and isinstance(e.value, int) and not isinstance(e.value, bool):
+            return f"({e.value} : {A})"
+        if isinstance(e, ast.BinOp) and type(e.op) in BIN:
+            return f"({self.ex(e.left)} {BIN[type(e.op)]} {self.ex(e.right)})"
+        if isinstance(e, ast.UnaryOp) and isinstance(e.op, ast.USub):
+            return f"(-{self.ex(e.operand)})"
+        if isinstance(e, ast.Subscript) and isinstance(e.value, ast.Name) and e.value.id == self.elem \
+                and isinstance(e.slice, ast.Constant) and e.slice.value == "pvalue":
+            return "pvalue__"
+        if isinstance(e, ast.Call) and isinstance(e.func, ast.Name) and e.func.id in ("min", "max") \
+                and len(e.args) == 2 and not e.keywords:
+            return f"({e.func.id} {self.ex(e.args[0])} {self.ex(e.args[1])})"
+        raise Unsupported(f"loop expression {ast.unparse(e)}")
+
+    def cond(self, t: ast.expr) -> str:
+        if isinstance(t, ast.BoolOp):
+            op = " ∧ " if isinstance(t.op, ast.And) else " ∨ "
+            return "(" + op.join(self.cond(v) for v in t.values) + ")"
+        if isinstance(t, ast.UnaryOp) and isinstance(t.op, ast.Not):
+            return f"(¬ {self.cond(t.operand)})"
+        if isinstance(t, ast.Compare) and len(t.ops) == 1 and type(t.ops[0]) in CMP:
+            return f"({self.ex(t.left)} {CMP[type(t.ops[0])]} {self.ex(t.comparators[0])})"
+        raise Unsupported(f"loop condition {ast.unparse(t)}")
+
+    def render(self, lean_name: str) -> str:  # noqa: C901, PLR0912, PLR0915
+        fn = self.fn
+        params = [a.arg for a in fn.args.args]
+        if len(params) != 2:
+            raise Unsupported(f"{fn.name}: parameters {params}")
+        seq, self.adjust = params
+        body = [x for x in fn.body if not (isinstance(x, ast.Expr) and isinstance(x.value, ast.Constant))]
+        loops = [x for x in body if isinstance(x, ast.For)]
+        if len(loops) != 1 or body[-1] is not loops[0] or loops[0].orelse:
+            raise Unsupported(f"{fn.name}: expected initialisations followed by one for loop")
+        loop = loops[0]
+        init: dict[str, int] = {}
+        uses_m = None
+        for st in body[:-1]:
+            if isinstance(st, ast.AnnAssign) and st.value is not None:
+                st = ast.Assign(targets=[st.target], value=st.value)
+            if not (isinstance(st, ast.Assign) and len(st.targets) == 1 and isinstance(st.targets[0], ast.Name)):
+                raise Unsupported(f"{fn.name}: statement before the loop: {ast.unparse(st)}")
+            name, v = st.targets[0].id, st.value
+            if isinstance(v, ast.Constant) and isinstance(v.value, int) and not isinstance(v.value, bool):
+                init[name] = v.value
+            elif ast.unparse(v) == f"len({seq})":
+                uses_m = name
+            else:
+                raise Unsupported(f"{fn.name}: initialisation {ast.unparse(st)}")
+        # for <idx>, <elem> in enumerate(sorted(<seq>, key=lambda d: ±d["pvalue"]) [, start=<int>])
+        it = loop.iter
+        if not (isinstance(loop.target, ast.Tuple) and len(loop.target.elts) == 2
+                and all(isinstance(x, ast.Name) for x in loop.target.elts)
+                and isinstance(it, ast.Call) and isinstance(it.func, ast.Name) and it.func.id == "enumerate"
+                and 1 <= len(it.args) <= 2):
+            raise Unsupported(f"{fn.name}: loop header {ast.unparse(loop.target)} in {ast.unparse(it)}")
+        idx, self.elem = (x.id for x in loop.target.elts)
+        start = 0
+        if len(it.args) == 2:
+            it_start = it.args[1]
+        else:
+            it_start = next((k.value for k in it.keywords if k.arg == "start"), None)
+        if any(k.arg != "start" for k in it.keywords):
+            raise Unsupported(f"{fn.name}: enumerate keywords")
+        if it_start is not None:
+            if not (isinstance(it_start, ast.Constant) and isinstance(it_start.value, int)):
+                raise Unsupported(f"{fn.name}: enumerate start {ast.unparse(it_start)}")
+            start = it_start.value
+        srt = it.args[0]
+        if not (isinstance(srt, ast.Call) and isinstance(srt.func, ast.Name) and srt.func.id == "sorted"
+                and len(srt.args) == 1 and isinstance(srt.args[0], ast.Name) and srt.args[0].id == seq
+                and len(srt.keywords) == 1 and srt.keywords[0].arg == "key"
+                and isinstance(srt.keywords[0].value, ast.Lambda)):
+            raise Unsupported(f"{fn.name}: sorted(...) shape {ast.unparse(srt)}")
+        lam = srt.keywords[0].value
+        d = lam.args.args[0].arg
+        key = ast.unparse(lam.body)
+        if key == f"-{d}['pvalue']":
+            descending = True
+        elif key == f"{d}['pvalue']":
+            descending = False
+        else:
+            raise Unsupported(f"{fn.name}: sort key {key}")
+        self.ints = {idx} | ({uses_m} if uses_m else set())
+        carried = list(init)
+        lines = [f"  let {c} := st.{k + 1}" for k, c in enumerate(carried)] if len(carried) == 2 else None
+        if lines is None:
+            raise Unsupported(f"{fn.name}: {len(carried)} carried variables (2 expected)")
+        out = None
+        tmpn = 0
+        stmts = [x for x in loop.body if not (isinstance(x, ast.Expr) and isinstance(x.value, ast.Constant))]
+        for k, st in enumerate(stmts):
+            if isinstance(st, ast.AnnAssign) and st.value is not None:
+                st = ast.Assign(targets=[st.target], value=st.value)
+            if isinstance(st, ast.Assign):
+                v = st.value
+                tg = st.targets
+                if len(tg) == 1 and isinstance(tg[0], ast.Tuple) and isinstance(v, ast.Call) \
+                        and isinstance(v.func, ast.Name) and v.func.id == self.adjust and len(v.args) == 2 \
+                        and len(tg[0].elts) == 2 and all(isinstance(x, ast.Name) for x in tg[0].elts):
+                    a0, a1 = self.ex(v.args[0]), self.ex(v.args[1])
+                    lines.append(f"  let {tg[0].elts[0].id} := (adjust {a0} {a1}).1")
+                    lines.append(f"  let {tg[0].elts[1].id} := (adjust {a0} {a1}).2")
+                    continue
+                if not all(isinstance(x, ast.Name) for x in tg):
+                    raise Unsupported(f"{fn.name}: assignment {ast.unparse(st)}")
+                if isinstance(v, ast.Subscript) and self.ex(v) == "pvalue__" and len(tg) == 1:
+                    lines.append(f"  let {tg[0].id} := pvalue__")
+                    continue
+                rhs = self.ex(v)
+                if len(tg) == 1:
+                    lines.append(f"  let {tg[0].id} := {rhs}")
+                    if isinstance(v, ast.BinOp) and all(isinstance(x, ast.Name) and x.id in self.ints
+                                                         for x in (v.left, v.right)):
+                        pass
+                else:
+                    tmpn += 1
+                    lines.append(f"  let tmp{tmpn} := {rhs}")
+                    for x in tg:
+                        lines.append(f"  let {x.id} := tmp{tmpn}")
+                continue
+            if isinstance(st, ast.If) and not st.orelse and len(st.body) == 1 and isinstance(st.body[0], ast.Assign) \
+                    and len(st.body[0].targets) == 1 and isinstance(st.body[0].targets[0], ast.Name):
+                x = st.body[0].targets[0].id
+                lines.append(f"  let {x} := if {self.cond(st.test)} then {self.ex(st.body[0].value)} else {x}")
+                continue
+            if isinstance(st, ast.Expr) and isinstance(st.value, ast.Call) and isinstance(st.value.func, ast.Attribute) \
+                    and st.value.func.attr == "update" and isinstance(st.value.func.value, ast.Name) \
+                    and st.value.func.value.id == self.elem and not st.value.args and k == len(stmts) - 1:
+                kws = {kw.arg: kw.value for kw in st.value.keywords}
+                if set(kws) != {"pvalue_adj", "alpha_adj", "null_rejected"}:
+                    raise Unsupported(f"{fn.name}: update keywords {sorted(kws)}")
+                nr = kws["null_rejected"]
+                if isinstance(nr, ast.Call) and isinstance(nr.func, ast.Name) and nr.func.id in ("int", "bool") \
+                        and len(nr.args) == 1:
+                    nr = nr.args[0]
+                out = f"({self.ex(kws['pvalue_adj'])}, {self.ex(kws['alpha_adj'])}, decide {self.cond(nr)})"
+                continue
+            raise Unsupported(f"{fn.name}: loop statement {ast.unparse(st)}")
+        if out is None:
+            raise Unsupported(f"{fn.name}: the loop does not end with {self.elem}.update(...)")
+        mparam = f" ({uses_m} : ℕ)" if uses_m else ""
+        text = (f"-- mult.{fn.name}: one iteration (state = ({', '.join(carried)}))\n"
+                f"def {lean_name}.step (adjust : {A} → {A} → {A} × {A}){mparam} (st : {A} × {A}) ({idx} : ℕ) "
+                f"(pvalue__ : {A}) : ({A} × {A} × Bool) × ({A} × {A}) :=\n"
+                + "\n".join(lines) + f"\n  ({out}, ({carried[0]}, {carried[1]}))\n\n"
+                f"def {lean_name}.init : {A} × {A} := (({init[carried[0]]} : {A}), ({init[carried[1]]} : {A}))\n"
+                f"def {lean_name}.start : ℕ := {start}\n"
+                f"def {lean_name}.descending : Bool := {'true' if descending else 'false'}\n"
+                f"def {lean_name}.usesLength : Bool := {'true' if uses_m else 'false'}\n")
+        return text
+
+
+def generate_mult_loops(src: Path) -> str:
+    mod = ast.parse((src / "multiplicity.py").read_text())
+    fns = {n.name: n for n in mod.body if isinstance(n, ast.FunctionDef)}
+    for need in ("_hochberg_stepup", "_holm_stepdown"):
+        if need not in fns:
+            raise Unsupported(f"multiplicity.{need} not found")
+    hdr = ("-- GENERATED by harness/translate.py from /repo/src/tea_tasting/multiplicity.py — do not edit.\n"
+           "import TeaTasting.Basic.Prelude\n\n"
+           f"variable {{{A} : Type}} [Field {A}] [LinearOrder {A}] [IsStrictOrderedRing {A}]\n\n"
+           "namespace Gen\n\n"
+           "/-- the `for i, r in enumerate(sorted(...), start)` recursion shared by both loops: `step` maps the carried state, "
+           "the\nindex and the p-value to the triple written into the result and the new state -/\n"
+           f"def runLoop (step : {A} × {A} → ℕ → {A} → ({A} × {A} × Bool) × ({A} × {A})) : "
+           f"List {A} → ℕ → {A} × {A} → List ({A} × {A} × Bool)\n"
+           "  | [], _, _ => []\n"
+           "  | p :: rest, i, st => (step st i p).1 :: runLoop step rest (i + 1) (step st i p).2\n\n")
+    up = _LoopTr(fns["_hochberg_stepup"]).render("hochbergStepup")
+    down = _LoopTr(fns["_holm_stepdown"]).render("holmStepdown")
+    return hdr + up + "\n" + down + "\nend Gen\n"
 
 def write_if_changed(path: Path, text: str) -> bool:
     if path.exists() and path.read_text() == text:
